@@ -265,6 +265,13 @@ func TestReplay(t *testing.T) {
 				return
 			}
 		}
+	case "stall":
+		var c StallCase
+		if err := h.LoadReplay(p, &c); err != nil {
+			t.Fatal(err)
+		}
+		rec.MarkCurrent(c)
+		rec.Report(t, c, runStall(c))
 	case "seq":
 		var c SeqCase
 		if err := h.LoadReplay(p, &c); err != nil {
